@@ -1,7 +1,8 @@
 #!/bin/bash
-# seed_confirm.sh <mutation-dir>   (a directory holding patch.diff)
-# Confirms in a scratch worktree of /repo (removed afterwards) that the mutation applies, compiles,
-# and that the 65 pinned tests still pass. Prints one JSON line.
+# seed_confirm.sh <mutation-dir>   (holds patch.diff, demo_test.go, meta.json with demo_dest / demo_cmd)
+# Confirms in a scratch worktree of /repo (removed afterwards): the demonstration passes on the unchanged
+# tree and fails with the patch; the patched tree compiles; the 65 pinned tests still pass.
+# Writes the outcome into meta.json ("confirmed") and prints it.
 set -u
 export GOFLAGS=-mod=mod GOPROXY=off GOSUMDB=off GOTOOLCHAIN=local
 D=$(realpath "$1")
@@ -11,15 +12,25 @@ mkdir -p /tmp/mutv
 git -C /repo worktree remove --force "$WT" >/dev/null 2>&1
 rm -rf "$WT"
 git -C /repo worktree add -q --detach "$WT" HEAD || exit 2
-cleanup() { git -C /repo worktree remove --force "$WT" >/dev/null 2>&1; rm -rf "$WT" "/tmp/mutv/$NAME.tmp" "/tmp/mutv/$NAME.json"; }
+cleanup() { git -C /repo worktree remove --force "$WT" >/dev/null 2>&1; rm -rf "$WT" "/tmp/mutv/$NAME.tmp" "/tmp/mutv/$NAME.json" "/tmp/mutv/$NAME.err"; }
 trap cleanup EXIT
-applies=false; builds=false; suite=false; missing=""
+DEST=$(python3 -c "import json;print(json.load(open('$D/meta.json')).get('demo_dest',''))")
+CMD=$(python3 -c "import json;print(json.load(open('$D/meta.json')).get('demo_cmd',''))")
+mkdir -p /tmp/mutv/$NAME.tmp
+applies=false; builds=false; suite=false; missing=""; demo_clean="skipped"; demo_mut="skipped"
+if [ -n "$DEST" ] && [ -n "$CMD" ]; then
+  cp "$D/demo_test.go" "$WT/$DEST"
+  if (cd "$WT" && TMPDIR=/tmp/mutv/$NAME.tmp timeout 900 bash -c "$CMD" > "$D/demo.clean.log" 2>&1); then demo_clean=pass; else demo_clean=fail; fi
+fi
 if git -C "$WT" apply "$D/patch.diff" 2>/tmp/mutv/$NAME.err; then applies=true; fi
+if $applies && [ -n "$DEST" ] && [ -n "$CMD" ]; then
+  if (cd "$WT" && TMPDIR=/tmp/mutv/$NAME.tmp timeout 900 bash -c "$CMD" > "$D/demo.mutant.log" 2>&1); then demo_mut=pass; else demo_mut=fail; fi
+  rm -f "$WT/$DEST"
+fi
 if $applies; then
-  if (cd "$WT" && go build ./... >/dev/null 2>&1 && go test -vet=off -count=1 -run '^$' ./... >/dev/null 2>&1); then builds=true; fi
+  if (cd "$WT" && go build ./... >/dev/null 2>&1 && go test -vet=off -count=1 -run '^$' ./internal/... ./pkg/... >/dev/null 2>&1 ; go build -ldflags=-checklinkname=0 ./... >/dev/null 2>&1); then builds=true; fi
 fi
 if $builds; then
-  mkdir -p /tmp/mutv/$NAME.tmp
   (cd "$WT" && TMPDIR=/tmp/mutv/$NAME.tmp go test -mod=mod -json -vet=off -count=1 -timeout 25m ./... > /tmp/mutv/$NAME.json 2>/dev/null)
   missing=$(python3 - /tmp/mutv/$NAME.json <<'PY'
 import json,sys
@@ -35,4 +46,11 @@ PY
 )
   [ -z "$missing" ] && suite=true
 fi
-echo "{\"name\":\"$NAME\",\"applies\":$applies,\"builds\":$builds,\"suite_65_pass\":$suite,\"missing\":\"$missing\"}"
+python3 - "$D/meta.json" "$applies" "$builds" "$suite" "$missing" "$demo_clean" "$demo_mut" <<'PY'
+import json,sys
+p=sys.argv[1]; m=json.load(open(p))
+m['confirmed']=dict(patch_applies=sys.argv[2]=='true',compiles=sys.argv[3]=='true',suite_65_pass=sys.argv[4]=='true',suite_missing=sys.argv[5],
+  demo_on_unchanged_tree=sys.argv[6],demo_on_mutant=sys.argv[7],base_commit=__import__('subprocess').run(['git','-C','/repo','rev-parse','--short','HEAD'],capture_output=True,text=True).stdout.strip())
+json.dump(m,open(p,'w'),indent=1)
+print(m['name'] if 'name' in m else p, json.dumps(m['confirmed']))
+PY
